@@ -856,7 +856,33 @@ fn algebra_case<T: El>(rng: &mut Rng, rep: &mut Report, tag: &str) {
         algebra_pair(&b, &a, &sb, &sa)?;
         // a set with itself (the very same object on both sides)
         algebra_pair(&a, &a, &sa, &sa)?;
-        algebra_pair(&b, &b, &sb, &sb)
+        algebra_pair(&b, &b, &sb, &sb)?;
+        // HashSet::clone_from (C11): destinations in B's phase and with spare room, B's hasher
+        for roomy in [false, true] {
+            let mut d: HashSet<T, Bh> = if roomy {
+                let mut x = HashSet::with_capacity_and_hasher(2 * a.len() + 10, bhb);
+                for v in b.iter().take(3) {
+                    x.insert(T::mk(*v));
+                }
+                x
+            } else {
+                sb.clone()
+            };
+            d.clone_from(&sa);
+            let same = d == sa && sa == d && d.len() == a.len() && a.iter().all(|v| d.contains(&T::mk(*v))) && d.iter().all(|t| a.contains(&t.val()));
+            if !same {
+                viol!("C11", "HashSet::clone_from: the destination differs from the source (roomy destination: {roomy})");
+            }
+            if d.hasher() != sa.hasher() {
+                viol!("C11", "HashSet::clone_from did not adopt the source's hasher (roomy destination: {roomy})");
+            }
+            // independent: changing the clone leaves the source alone
+            d.insert(T::mk(u64::MAX - 7));
+            if sa.contains(&T::mk(u64::MAX - 7)) || sa.len() != a.len() {
+                viol!("C11", "a change to the clone_from destination shows in the source set");
+            }
+        }
+        Ok(())
     });
     match r {
         Err(p) => {
